@@ -27,7 +27,15 @@ struct Sys {
     parsed_image: Vec<u8>,
     /// explore from the new archive only (used by the stateright cross-check)
     only_new: bool,
+    /// message alphabet of set_message
+    msgs: Vec<String>,
 }
+
+/// Second message alphabet ("text"): characters outside Shift-JIS that look like members
+/// (wave dash, double vertical line, em dash), a leading / trailing U+FEFF, CR and CR LF, tab,
+/// astral, Shift-JIS characters whose trail byte is a backslash or is followed by 'n', and
+/// characters that are two bytes in UTF-8 and in Shift-JIS with ASCII after them.
+const TEXT_MSGS: [&str; 14] = ["", "10\u{301C}20", "\u{2016}", "a\u{2014}b", "\u{FEFF}x", "x\u{FEFF}", "\u{FFFE}", "a\r\nb", "\r", "t\tab", "\u{1F600}", "ソn", "能\\n", "HP×2"];
 
 #[derive(Clone)]
 struct St {
@@ -49,7 +57,18 @@ impl Sys {
         t.set_message("b", "seed\\nB");
         t.set_message("a", "seedA");
         let parsed_image = t.serialize().expect("serialize seed");
-        Sys { keys, fmt, endian, parsed_image, only_new: false }
+        Sys { keys, fmt, endian, parsed_image, only_new: false, msgs: MSGS.iter().map(|m| m.to_string()).collect() }
+    }
+    fn with_text_msgs(mut self) -> Sys {
+        self.msgs = TEXT_MSGS.iter().map(|m| m.to_string()).collect();
+        self
+    }
+    /// can the model's content be written in this system's format at all?
+    fn encodable(&self, m: &TextModel) -> bool {
+        match self.fmt {
+            TextArchiveFormat::Unicode => vcore::sjis::lossless(&m.title) || m.title.is_empty(),
+            _ => m.entries.iter().all(|(k, v)| vcore::sjis::lossless(k) || k.is_empty()) && m.entries.iter().all(|(_, v)| v.is_empty() || vcore::sjis::lossless(v)),
+        }
     }
     fn fresh(&self, init: usize) -> TextArchive {
         if init == 0 {
@@ -66,7 +85,10 @@ impl Sys {
         }
     }
     /// all observers; returns the list of divergences from the model
-    fn observe(&self, t: &TextArchive, m: &TextModel) -> Vec<String> {
+    /// `pristine` = no mutating call has been made since `new` / `from_bytes`.
+    /// Dirty flag, as far as the statement fixes it: clear on a pristine archive, set once any
+    /// set_message has been made; after only deletes / set_title calls it is not constrained.
+    fn observe(&self, t: &TextArchive, m: &TextModel, pristine: bool) -> Vec<String> {
         let mut d = Vec::new();
         let entries: Vec<(String, String)> = t.get_entries().iter().map(|(k, v)| (k.clone(), v.clone())).collect();
         if entries != m.entries {
@@ -75,8 +97,11 @@ impl Sys {
         if t.get_title() != m.title {
             d.push(format!("title {:?} != model {:?}", t.get_title(), m.title));
         }
-        if t.is_dirty() != m.dirty {
-            d.push(format!("dirty {} != model {}", t.is_dirty(), m.dirty));
+        if m.dirty && !t.is_dirty() {
+            d.push("dirty false != model true (a set_message has been made)".to_string());
+        }
+        if pristine && t.is_dirty() {
+            d.push("dirty true != model false (new / parsed archive, nothing called yet)".to_string());
         }
         for k in self.keys.iter().chain(["zz"].iter()) {
             if t.has_message(k) != m.has_message(k) {
@@ -108,8 +133,8 @@ impl System for Sys {
     fn actions(&self, _s: &Self::State) -> Vec<Op> {
         let mut v = Vec::new();
         for k in &self.keys {
-            for m in MSGS {
-                v.push(Op::Set(k.to_string(), m.to_string()));
+            for m in &self.msgs {
+                v.push(Op::Set(k.to_string(), m.clone()));
             }
             v.push(Op::Delete(k.to_string()));
         }
@@ -158,7 +183,7 @@ impl System for Sys {
             let _ = t.is_dirty();
             let _ = t.get_entries().len();
             Sys::apply(&mut t, op);
-            let mut d = self.observe(&t, &model);
+            let mut d = self.observe(&t, &model, false);
             // storing a looked-up message back changes nothing (but the dirty flag)
             for k in &self.keys {
                 if let Some(g) = t.get_message(k) {
@@ -172,7 +197,11 @@ impl System for Sys {
             }
             // serialize → parse lists the same keys in the same order, and is clean
             match t.serialize() {
-                Err(e) => d.push(format!("serialize failed: {}", e)),
+                Err(e) => {
+                    if self.encodable(&model) {
+                        d.push(format!("serialize failed: {}", e))
+                    }
+                }
                 Ok(bytes) => match TextArchive::from_bytes(&bytes, self.fmt, self.endian) {
                     Err(e) => d.push(format!("from_bytes(serialize()) failed: {}", e)),
                     Ok(back) => {
@@ -251,7 +280,7 @@ impl stateright::Model for SrModel {
             t.set_message(k, &ref_text::escape(v));
         }
         Sys::apply(&mut t, &op);
-        let diverged = !self.sys.observe(&t, &model).is_empty();
+        let diverged = !self.sys.observe(&t, &model, false).is_empty();
         Some(SrState { model, diverged })
     }
     fn properties(&self) -> Vec<stateright::Property<Self>> {
@@ -275,6 +304,8 @@ fn systems(tier: Tier) -> Vec<(String, Sys)> {
         ("Unicode/Little/3 keys".to_string(), Sys::new(keys3.clone(), TextArchiveFormat::Unicode, Endian::Little)),
         ("ShiftJIS/Big/2 keys".to_string(), Sys::new(vec!["a", "b"], TextArchiveFormat::ShiftJIS, Endian::Big)),
     ];
+    v.push(("Unicode/Little/2 keys/text alphabet".to_string(), Sys::new(vec!["a", "ソn"], TextArchiveFormat::Unicode, Endian::Little).with_text_msgs()));
+    v.push(("ShiftJIS/Little/2 keys/text alphabet".to_string(), Sys::new(vec!["a", "ソn"], TextArchiveFormat::ShiftJIS, Endian::Little).with_text_msgs()));
     if tier == Tier::Thorough {
         v.push(("ShiftJIS/Big/3 keys".to_string(), Sys::new(keys3, TextArchiveFormat::ShiftJIS, Endian::Big)));
         v.push(("Unicode/Little/4 keys (depth-bounded)".to_string(), Sys::new(vec!["a", "b", "c", "d"], TextArchiveFormat::Unicode, Endian::Little)));
@@ -300,7 +331,7 @@ fn explore(ctx: &Ctx) -> Outcome {
         // initial states must already agree with the model (clean, empty / parsed content)
         for (i, m) in [(0usize, TextModel::new()), (1usize, parsed_seed_model())] {
             let t = sys.fresh(i);
-            let d = sys.observe(&t, &m);
+            let d = sys.observe(&t, &m, true);
             if !d.is_empty() {
                 o.violate(format!("init:{}", i), format!("[{}] initial state {} differs from the model: {}", name, i, d.join("; ")), json!({"system": name, "history": []}));
             }
@@ -349,7 +380,7 @@ fn replay(ctx: &Ctx, case: &Value) -> Vec<Violation> {
         for init in 0..2 {
             let mut st = (St { init, model: if init == 0 { TextModel::new() } else { parsed_seed_model() } }, Arc::new(vec![]));
             if hist.is_empty() {
-                let d = sys.observe(&sys.fresh(init), &st.0.model);
+                let d = sys.observe(&sys.fresh(init), &st.0.model, true);
                 if !d.is_empty() {
                     out.push(Violation { sig: format!("init:{}", init), summary: d.join("; "), case: case.clone() });
                 }
